@@ -766,6 +766,37 @@ theorem replay_not_rejected {W WC} (ci : Cipher W WC) (hl : Laws ci) (c : Ctx) (
       omega
   exact receiver_delivers ci hl.dec_enc c none ssrc (Or.inl rfl) [(j, p), (j, p)] ⟨h, h2, trivial⟩
 
+/-! ## 5. one outgoing context, many goroutines -/
+
+theorem foldl_turn_atomic (s : Shared) (sched : List Nat) :
+    (sched.foldl (turn true) s).counter = s.counter + sched.length ∧
+    (sched.foldl (turn true) s).emitted = s.emitted ++ List.range' (s.counter + 1) sched.length := by
+  induction sched generalizing s with
+  | nil => simp
+  | cons g rest ih =>
+    obtain ⟨h1, h2⟩ := ih (turn true s g)
+    simp only [List.foldl_cons, List.length_cons]
+    refine ⟨by rw [h1]; simp [turn]; omega, ?_⟩
+    rw [h2]
+    simp [turn, List.range'_succ]
+
+/-- **shared_context_indexes_distinct.**  Because every mutating call into the shared pion context
+holds the EXCLUSIVE lock (`encryptSerialised`, a regenerated fact), under ANY schedule of ANY number
+of goroutines the counters used for the emitted packets are exactly 1, 2, …, n in emission order: no
+SRTCP index (no keystream) is ever used twice and none is skipped. -/
+theorem shared_context_indexes_distinct (sched : List Nat) :
+    (runSched encryptSerialised sched).emitted = List.range' 1 sched.length ∧
+    (runSched encryptSerialised sched).emitted.Nodup := by
+  have hs : encryptSerialised = true := by decide
+  have := (foldl_turn_atomic {} sched).2
+  simp only [runSched, hs]
+  rw [this]
+  simpa using List.nodup_range' (s := 1) (n := sched.length) (step := 1)
+
+/-- … and this is what the exclusive lock is for: with a shared (read) lock or none, two goroutines
+that interleave read the same counter and protect two different packets with the same index. -/
+theorem weakened_lock_reuses_index : (runSched false [0, 1, 0, 1]).emitted = [1, 1] := by decide
+
 /-! ### non-vacuity -/
 
 def key0 : Bytes := (List.range 30).map UInt8.ofNat
